@@ -52,6 +52,34 @@ type c10Runner struct {
 	stores  [c10NumChan]store.ChannelStore
 	rig     *reactor.VerifRetentionRig
 	rts     [c10NumChan]uint64 // rc.state.RetentionThroughSeq of the loaded runtime channel (highest boundary seen)
+	ckMem   [c10NumChan]uint64 // rc.state.CheckpointHW as left by the reactor's checkpoint result handler
+	failCk  bool               // injected fault: checkpoint writes issued by the worker fail
+}
+
+// fault-injecting store factory handed to the reactor's worker pools
+type c10FaultFactory struct {
+	inner *store.MessageDBFactory
+	fail  *bool
+}
+
+func (f c10FaultFactory) ChannelStore(key ch.ChannelKey, id ch.ChannelID) (store.ChannelStore, error) {
+	cs, err := f.inner.ChannelStore(key, id)
+	if err != nil {
+		return nil, err
+	}
+	return &c10FaultStore{ChannelStore: cs, fail: f.fail}, nil
+}
+
+type c10FaultStore struct {
+	store.ChannelStore
+	fail *bool
+}
+
+func (s *c10FaultStore) StoreCheckpoint(ctx context.Context, ck ch.Checkpoint) error {
+	if *s.fail {
+		return errors.New("injected checkpoint write failure")
+	}
+	return s.ChannelStore.StoreCheckpoint(ctx, ck)
 }
 
 var c10RunnerSeq int
@@ -79,12 +107,13 @@ func (r *c10Runner) open() {
 		panic("open message db: " + err.Error())
 	}
 	r.stores[0] = s
-	rig, err := reactor.VerifNewRetentionRig(1, r.factory)
+	rig, err := reactor.VerifNewRetentionRig(1, c10FaultFactory{inner: r.factory, fail: &r.failCk})
 	if err != nil {
 		panic("retention rig: " + err.Error())
 	}
 	r.rig = rig
 	r.rts = [c10NumChan]uint64{}
+	r.ckMem = [c10NumChan]uint64{}
 }
 
 func (r *c10Runner) closeAll() {
@@ -128,6 +157,14 @@ func c10Err(err error) string {
 		return "err:corruptstate"
 	case errors.Is(err, compat.ErrInvalidArgument), errors.Is(err, ch.ErrInvalidConfig):
 		return "err:invalid"
+	case errors.Is(err, ch.ErrChannelNotFound):
+		return "err:notfound"
+	case errors.Is(err, ch.ErrNotLeader):
+		return "err:notleader"
+	case errors.Is(err, ch.ErrStaleMeta):
+		return "err:stalemeta"
+	case errors.Is(err, ch.ErrNotReady):
+		return "err:notready"
 	case errors.Is(err, ch.ErrClosed):
 		return "err:closed"
 	default:
@@ -339,6 +376,10 @@ func (r *c10Runner) Step(op string) string {
 			return c10Err(err)
 		}
 		return fmt.Sprintf("ok %d%s", res.NextSeq, c10Seqs(res.Messages))
+	case "fread":
+		return r.fread(c, f)
+	case "fsync":
+		return r.fsync(c, f)
 	case "sync":
 		if len(f) != 9 {
 			return "bad-op"
@@ -423,9 +464,10 @@ func (r *c10Runner) gate(f []string) string {
 
 // retain c through rts role local isr prog hwlead maxMsgs maxBytes
 func (r *c10Runner) retain(c int, f []string) string {
-	if len(f) != 11 {
+	if len(f) != 12 || (f[11] != "0" && f[11] != "1") {
 		return "bad-op"
 	}
+	failCk := f[11] == "1"
 	ctx := context.Background()
 	through, ok1 := c10Num(f[2])
 	rts, ok2 := c10Num(f[3])
@@ -450,6 +492,9 @@ func (r *c10Runner) retain(c int, f []string) string {
 	st := c10State(role, local, isr, prog)
 	st.LEO = init.LEO
 	st.CheckpointHW = init.CheckpointHW
+	if r.ckMem[c] > st.CheckpointHW { // in-memory value left by an earlier checkpoint result
+		st.CheckpointHW = r.ckMem[c]
+	}
 	st.HW = init.HW + hwlead
 	if st.HW > st.LEO {
 		st.HW = st.LEO
@@ -474,9 +519,12 @@ func (r *c10Runner) retain(c int, f []string) string {
 	allowed, reason := reactor.VerifRetentionTrimDecision(&probe, through)
 	minISR := reactor.VerifMinISRMatchOffset(&probe)
 	// the REAL path: handleApplyRetentionBoundary -> worker retention (+ checkpoint) task -> result handlers
+	r.failCk = failCk
 	res, err := r.rig.Apply(st, r.cs(c), ch.RetentionApplyRequest{ChannelID: c10ID(c), ThroughSeq: through,
 		Options: ch.RetentionApplyOptions{MaxTrimMessages: int(maxMsgs), MaxTrimBytes: int(maxBytes)}})
+	r.failCk = false
 	r.rts[c] = st.RetentionThroughSeq
+	r.ckMem[c] = st.CheckpointHW
 	a := "0"
 	if allowed {
 		a = "1"
@@ -503,6 +551,121 @@ func (r *c10Runner) retain(c int, f []string) string {
 	}
 	return fmt.Sprintf("%s ok %d %d %d %d %d %s %s ck=%s rows=%s", head, res.LocalRetentionThroughSeq, res.PhysicalRetentionThroughSeq, res.ThroughSeq,
 		res.DeletedThroughSeq, res.Deleted, more, br, ck, r.remaining(c))
+}
+
+// metadata the leader resolves for a forwarded read, by mode
+func c10Meta(mode uint64, id ch.ChannelID, mminisr, mrts uint64) (ch.Meta, error) {
+	m := ch.Meta{ID: id, Epoch: 1, LeaderEpoch: 1, Leader: 1, MinISR: int(mminisr), RetentionThroughSeq: mrts, Status: ch.StatusActive}
+	switch mode {
+	case 1, 2:
+		return ch.Meta{}, ch.ErrChannelNotFound
+	case 3:
+		m.Leader = 2
+	case 4:
+		m.Epoch = 0
+	case 5:
+		m.Status = ch.StatusDeleting
+	case 6:
+		m.Leader = 0
+	}
+	return m, nil
+}
+
+func (r *c10Runner) forward(c int, mode uint64, req store.ReadCommittedRequest, rts, eminisr, mminisr, mrts uint64, wire bool) (store.ReadCommittedResult, error) {
+	item := channels.CommittedReadRequest{CommittedRead: channels.CommittedRead{ChannelID: c10ID(c), Request: req},
+		RetentionThroughSeq: rts, ExpectedLeader: 1, ExpectedChannelEpoch: 1, ExpectedLeaderEpoch: 1, ExpectedMinISR: int(eminisr)}
+	if mode == 2 {
+		item.ExpectedLeader = 0
+	}
+	resp, err := channels.VerifForwardCommittedReads(context.Background(), r.factory, 1,
+		func(id ch.ChannelID) (ch.Meta, error) { return c10Meta(mode, id, mminisr, mrts) }, channels.CommittedReadsRequest{Items: []channels.CommittedReadRequest{item}})
+	if err != nil {
+		return store.ReadCommittedResult{}, err
+	}
+	if len(resp.Items) != 1 {
+		return store.ReadCommittedResult{}, errors.New("item count")
+	}
+	if resp.Items[0].Err != nil {
+		return store.ReadCommittedResult{}, resp.Items[0].Err
+	}
+	if wire {
+		back, err := channels.VerifRoundTripCommittedReadsResponse(resp)
+		if err != nil {
+			return store.ReadCommittedResult{}, err
+		}
+		if len(back.Items) != 1 || back.Items[0].Err != nil {
+			return store.ReadCommittedResult{}, errors.New("round trip")
+		}
+		return back.Items[0].Read, nil
+	}
+	return resp.Items[0].Read, nil
+}
+
+// fread c metamode rev from max min limit rts eminisr mminisr mrts
+func (r *c10Runner) fread(c int, f []string) string {
+	if len(f) != 12 {
+		return "bad-op"
+	}
+	mode, ok0 := c10Num(f[2])
+	rev, ok1 := c10Num(f[3])
+	from, ok2 := c10Big(f[4])
+	max, ok3 := c10Big(f[5])
+	min, ok4 := c10Big(f[6])
+	var v [5]uint64
+	ok := ok0 && ok1 && ok2 && ok3 && ok4 && mode <= 6 && rev <= 1
+	for i := 0; i < 5; i++ {
+		var o bool
+		v[i], o = c10Num(f[7+i])
+		ok = ok && o
+	}
+	if !ok {
+		return "bad-op"
+	}
+	res, err := r.forward(c, mode, store.ReadCommittedRequest{FromSeq: from, MaxSeq: max, MinSeq: min, Limit: int(v[0]), Reverse: rev == 1},
+		v[1], v[2], v[3], v[4], false)
+	if err != nil {
+		return c10Err(err)
+	}
+	return fmt.Sprintf("ok %d%s", res.NextSeq, c10Seqs(res.Messages))
+}
+
+// fsync c mode start end min limit rts minISR : a sync page served by a REMOTE leader
+// (forwarded read, response through the RPC codec, page built on the origin)
+func (r *c10Runner) fsync(c int, f []string) string {
+	if len(f) != 9 {
+		return "bad-op"
+	}
+	mode, ok0 := c10Num(f[2])
+	start, ok1 := c10Big(f[3])
+	end, ok2 := c10Big(f[4])
+	min, ok3 := c10Big(f[5])
+	limit, ok4 := c10Num(f[6])
+	rts, ok5 := c10Num(f[7])
+	minISR, ok6 := c10Num(f[8])
+	if !(ok0 && ok1 && ok2 && ok3 && ok4 && ok5 && ok6) || mode > 1 {
+		return "bad-op"
+	}
+	q := message.ChannelMessageQuery{ChannelID: message.ChannelID{ID: c10ID(c).ID, Type: c10ID(c).Type}, StartSeq: start, EndSeq: end, MinSeq: min,
+		Limit: int(limit), PullMode: message.PullMode(mode)}
+	lim := q.Limit
+	if lim <= 0 {
+		lim = 1
+	}
+	res, err := r.forward(c, 0, infracluster.VerifReadCommittedRequest(q, lim), rts, minISR, minISR, 0, true)
+	if err != nil {
+		return c10Err(err)
+	}
+	page := infracluster.VerifChannelMessagePageFromRead(q, lim, res)
+	var b strings.Builder
+	more := "0"
+	if page.HasMore {
+		more = "1"
+	}
+	b.WriteString("ok " + more)
+	for _, m := range page.Messages {
+		fmt.Fprintf(&b, " %d", m.MessageSeq)
+	}
+	return b.String()
 }
 
 var _ = sort.Ints
